@@ -17,8 +17,8 @@ CLAIMS = {
     "C03": "the election restriction is decided exactly for every vote/pre-vote response the code can emit (reject possibly false => is_up_to_date(m.index, m.log_term) dominates the send), is_up_to_date's truth table, what a candidate advertises, vote-carried commit only on a term match. NOT decided: leader completeness itself (needs C01/C04 globally).",
     "C04": "the inputs of the leader's commit computation: acked_index reads Progress.matched; matched rises only on a non-rejecting append response, on the leader's own persistence notice behind maybe_persist's three guards, or after snapshot install; commit only through the term-matched function with the node's own term; quorum arithmetic shapes; followers commit min(leader commit, last new index) / capped heartbeat commit. NOT decided: that an acknowledgement reflects durable state on the peer at every crash point.",
     "C05": "a leader never truncates (call-graph fact: nothing reachable from the leader dispatcher reaches the truncating append or a log restore); follower appends only onto a matching (prev index, prev term); the appended suffix starts at the first conflicting entry; leader entries are stamped (term, last+1+i); append anchors; commit index monotone. NOT decided: the pairwise log-matching invariant.",
-    "C06": "persist-before-send as code shape: Ready.is_persisted_msg := (state != Leader) and the four accessors partition on it, must_sync on term/vote change, hard state = (term, vote, commit) reloaded on restart, all messages leave through send() which stamps the term, the leader's self-acknowledgement waits for persistence, Storage is read-only to the library. NOT decided: the crash-point quantifier (what the application has fsynced when).",
-    "C07": "hand-off bounds (next_entries_since and has_next_entries_since agree on max(since+1, first) .. min(committed, persisted+limit)), has_ready/ready source-set agreement, ReadyRecord bookkeeping order in advance*/on_persist_ready, must_sync triggers, persisted lowered on truncation/restore. NOT decided: exactly-once/no-gap delivery over every interleaving of ready/advance/on_persist_ready (a history property).",
+    "C06": "persist-before-send as code shape: Ready.is_persisted_msg is true on every path except for a leader whose Ready carries no new term or vote (release gate, finding F4 fixed in 19ba125) and the four accessors partition on it, must_sync on term/vote change, hard state = (term, vote, commit) reloaded on restart whenever it is not the default one (the test dominates the constructor's success), all messages leave through send() which stamps the term, the leader's self-acknowledgement waits for persistence, Storage is read-only to the library. NOT decided: the crash-point quantifier (what the application has fsynced when).",
+    "C07": "hand-off bounds (next_entries_since and has_next_entries_since agree on max(since+1, first) .. min(committed, persisted+limit)), has_ready/ready source-set agreement, LightReady.commit_index handed out exactly when the commit index is above prev_hs.commit, ReadyRecord bookkeeping order in advance*/on_persist_ready, must_sync triggers, persisted lowered on truncation/restore. NOT decided: exactly-once/no-gap delivery over every interleaving of ready/advance/on_persist_ready (a history property).",
     "C08": "Safe ReadIndex gates: own-term commit before serving, recorded index = commit index at registration, advance only behind has_quorum(recv_ack(from, ctx)) for the same ctx, read state dropped on every reset, routing of responses to the requester, stale leaders' heartbeats never acknowledged. NOT decided: linearizability over real-time orders.",
     "C09": "the proposal filter (one pending conf change; joint/leave preconditions), pending_conf_index writers, campaign gate on unapplied conf changes, promotable has one writer (voters.contains(self.id)) and gates both self-campaign sites, apply dispatch and ConfState round-trip field exhaustiveness. NOT decided: 'configuration is a function of the applied log' across nodes.",
     "C10": "NARROW: only the un-stall pairings (heartbeat response resumes/free-one/re-sends, reject -> decrement + probe, snapshot status leaves Snapshot, timers fire campaigns/heartbeats/check-quorum, lower-term unstick replies, has_ready agreement). NOT decided: anything quantitative (bounded-time election, convergence, commitment).",
